@@ -86,3 +86,11 @@ theorem sat_throwE {e : Exc} {w : World α} {Q : β → World α → Prop} {E : 
 def NoThrow (m : M α β) : Prop := ∀ w, ∃ b w', m w = .ok b w'
 
 end SvModel
+
+namespace SvModel
+variable {α β : Type}
+theorem sat_of_ok {m : M α β} {w w' : World α} {b : β} {Q : β → World α → Prop} {E : Exc → World α → Prop}
+    (h : (m w).sat Q E) (hr : m w = .ok b w') : Q b w' := by rw [hr] at h; exact h
+theorem sat_of_thrown {m : M α β} {w w' : World α} {e : Exc} {Q : β → World α → Prop} {E : Exc → World α → Prop}
+    (h : (m w).sat Q E) (hr : m w = .thrown e w') : E e w' := by rw [hr] at h; exact h
+end SvModel
